@@ -56,6 +56,41 @@ def run(chk):
     fids = [f for f in scope if prog.bodies[f].file == "a2lfile/src/sort.rs"]
     diag.compare(chk, "R15-table", "sort", sortrules.sort_table(prog, fids), "uid updates reachable from sort::sort_new_items with their control predicates, compared with the reviewed table", floor=15,
                  fn_filter=lambda fn: fn in {re.sub(r"\{closure#\d+\}", "{closure}", mir.strip_generics(f)) for f in fids} or fn.split("::{closure}")[0] in {mir.strip_generics(f) for f in fids})
+    # ---------------------------------------------------------------- R15-next
+    # "the slot behind an element that already has a position" is (its doubled uid) + 1: wherever a uid field is read to form `uid + 1`,
+    # the doubled value has been stored in that field on every path to the read (uid + 1 of the undoubled value lies at or before
+    # the doubled uids of the elements that follow, so the new element would be written in front of them)
+    nnext = 0
+
+    def is_uid(pl):
+        return pl is not None and pl["p"] and isinstance(pl["p"][-1], dict) and pl["p"][-1].get("f") == "uid"
+    for fid in fids:
+        b = prog.bodies[fid]
+        muls, writes, reads, adds = {}, [], {}, []
+        for bi, si, st in b.stmts():
+            if st["k"] != "assign":
+                continue
+            rv = st["rv"]
+            if rv["r"] == "bin" and rv["op"].startswith("Mul") and is_uid(mir.op_place(rv["a"])) and mir.const_int(rv["b"]) == 2 and not st["p"]["p"]:
+                muls[st["p"]["l"]] = (bi, si)
+            elif rv["r"] == "use" and is_uid(st["p"]):
+                src = mir.op_place(rv["a"])
+                if src is not None and src["l"] in muls:
+                    writes.append((bi, si, st["p"]["l"]))
+            elif rv["r"] == "use" and not st["p"]["p"] and is_uid(mir.op_place(rv["a"])):
+                reads[st["p"]["l"]] = (bi, si, mir.op_place(rv["a"])["l"])
+            elif rv["r"] == "bin" and rv["op"].startswith("Add") and mir.const_int(rv["b"]) == 1:
+                adds.append((bi, si, rv["a"], st["ln"]))
+        for bi, si, a, ln in adds:
+            pl = mir.op_place(a)
+            rd = reads.get(pl["l"]) if pl is not None and not pl["p"] else ((bi, si, pl["l"]) if is_uid(pl) else None)
+            if rd is None:
+                continue
+            nnext += 1
+            ok = any(w[2] == rd[2] and ((w[0] == rd[0] and w[1] < rd[1]) or (w[0] != rd[0] and b.dominates(w[0], rd[0]))) for w in writes)
+            if not ok:
+                chk.add(Finding("R15-next", "R15-next::%s" % mir.strip_generics(fid), "%s forms `uid + 1` from a uid that has not been doubled on every path to this point: the position handed to the next new element lies in front of the doubled positions of the elements that follow" % fid, b.where(ln)))
+    chk.rule("R15-next", "`uid + 1` computations in sort.rs that read the uid after its doubling was stored", nnext, floor=2)
     # ---------------------------------------------------------------- R15-stable
     n = 0
     for fid, b in prog.bodies.items():
